@@ -738,7 +738,9 @@ static void fill_requested_extension(struct websocket *s, const char  *start, si
 	size_t name_length = strlen(s->extension_compression.name);
 	if (name_length == parameter_length[0]) {
 		if (memcmp(s->extension_compression.name, parameter[0], name_length) == 0) {
-			s->extension_compression.response = realloc(s->extension_compression.response, response_max_length);
+			char *response = realloc(s->extension_compression.response, response_max_length);
+			if (response == NULL) return;
+			s->extension_compression.response = response;
 			memcpy(s->extension_compression.response, s->extension_compression.name, name_length);
 		} else return;
 	} else return;
